@@ -153,3 +153,10 @@ impl<'a, T> IntoParIterExt<'a, T> for &'a [T] { open spec fn ipitems(&self) -> S
 /// HashMap::extend(other map) (rule R17 rewrites `X.extend(Y)` to `map_extend(&mut X, Y)`: std's Extend trait method cannot carry a spec): right-biased union
 #[verifier::external_body]
 pub fn map_extend<K, V>(m: &mut HashMap<K, V>, other: HashMap<K, V>) ensures final(m)@ == old(m)@.union_prefer_right(other@) { unimplemented!() }
+/// `for (k, v) in map` (HashMap consumed by value; rule R18): the entries in the map's unspecified iteration order, each key once
+#[verifier::external_body]
+pub fn map_into_vec<K, V>(m: HashMap<K, V>) -> (r: Vec<(K, V)>)
+    ensures forall|i: int| 0 <= i < r@.len() ==> m@.contains_key((#[trigger] r@[i]).0) && m@[r@[i].0] == r@[i].1,
+            forall|k: K| m@.contains_key(k) ==> exists|i: int| 0 <= i < r@.len() && (#[trigger] r@[i]).0 == k,
+            forall|i: int, j: int| 0 <= i < j < r@.len() ==> (#[trigger] r@[i]).0 != (#[trigger] r@[j]).0
+{ unimplemented!() }
